@@ -192,7 +192,7 @@ pub fn generate(tier: &str, seed: u64, shard: u64, nshards: u64, path: &str) -> 
     quiet_panics();
     let mut t = Trace::create(path);
     let mut rng = Rng::new(seed ^ shard.wrapping_mul(0x6C62272E) ^ 77);
-    let scale = if tier == "thorough" { 120 } else { 3 };
+    let scale = if tier == "thorough" { 600 } else { 3 };
     let mut cases = 0usize;
     if shard == 0 {
         // directed: every variant x u32 boundary table, all events, all limit types
